@@ -4,7 +4,7 @@ from . import _histcheck
 
 PROPERTY = 'C01'
 LEVEL = 'exploration'
-RULE = ('per element-content type: core = every sequence of <=3 additions (<=2 when the alphabet exceeds 12; thorough <=3, <=4 for alphabets <=8), the same with the last addition offered twice, and every <=1 addition (thorough <=2) followed by one removal / replacement / forward addition / shortcut, each serialised with intelligent_choice off and on; halo = seeded hostile histories (mixed, failure-biased, removal-heavy, shortcut, guided by shuffled valid words) with serialisations interleaved. A case is one history; non-trivial = it reached at least one operation; distinct = distinct operation string. Plus nested documents generated from the reference grammar and assembled through the API with the children of every level shuffled / reversed: every node of every serialisation that returns is validated. Only normal returns of to_string are judged.')
+RULE = ('per element-content type: core = every sequence of <=3 additions (<=2 when the alphabet exceeds 12; thorough <=3, <=4 for alphabets <=8), the same with the last addition offered twice, every <=2 additions (<=1 for alphabets >8) + [xsd_check off, one replacement (by object, by catch-all predicate + index) / addition / removal, xsd_check on, serialisation], and every <=1 addition (thorough <=2) followed by one removal / replacement / forward addition / shortcut, each serialised with intelligent_choice off and on; halo = seeded hostile histories (mixed, failure-biased, removal-heavy, shortcut, guided by shuffled valid words) with serialisations interleaved. A case is one history; non-trivial = it reached at least one operation; distinct = distinct operation string. Plus nested documents generated from the reference grammar and assembled through the API with the children of every level shuffled / reversed: every node of every serialisation that returns is validated. Only normal returns of to_string are judged.')
 ASSUMPTIONS = ['reference DFAs built from /verif/ref/musicxml_4_0.xsd are the schema (self-tested, cross-checked by C03)', 'children are minimal unchecked instances so only the parent level is judged; parents carry their schema-required attributes', 'witnesses are shrunk by delta debugging before classification; beyond a fixed number per pre-signature they are only counted']
 TIMEOUT = {'quick': 900, 'thorough': 5400}
 PROPS = ('C01',)
@@ -89,7 +89,7 @@ def run_shard(shard, tier, seed):
     t = shard['type']
     n = genhist.nadd_for(t, tier)
     m = 1 if tier == 'quick' else 2
-    cores = [genhist.with_final_str(genhist.core_forward_first(t, 2)), genhist.with_final_str(genhist.core_additions(t, n)), genhist.with_final_str(genhist.core_last_twice(t, n)), genhist.with_final_str(genhist.core_mixed(t, m, ('rm', 'rep', 'fwd', 'set')))]
+    cores = [genhist.with_final_str(genhist.core_forward_first(t, 2)), genhist.with_final_str(genhist.core_additions(t, n)), genhist.with_final_str(genhist.core_last_twice(t, n)), genhist.core_toggled(t, 1 if len(ref.DFAS[t].alphabet) > 8 else 2), genhist.with_final_str(genhist.core_mixed(t, m, ('rm', 'rep', 'fwd', 'set')))]
     halos = [('mixed', 60, 10), ('failure', 30, 10), ('removal', 40, 10), ('serialise', 60, 10), ('shortcut', 20, 8), ('guided', 40, 12)] if tier == 'quick' else [('mixed', 1000, 14), ('failure', 500, 12), ('removal', 600, 14), ('serialise', 1000, 14), ('shortcut', 300, 10), ('guided', 800, 25)]
     return _histcheck.run(shard, tier, seed, PROPERTY, cores, halos, PROPS, shrink_per_presig=6)
 
